@@ -131,7 +131,7 @@ def main():
     t = common.tier()
     from ..pysym import stubs
     from ..ref import interp
-    K = 3 if t == "quick" else 4
+    K = 3 if t == "quick" else 5
     rep = common.Report(PID, "model_checking")
     rep.rule = ("one case = one loop skeleton (header kind x loop type x value kinds/brackets x body x before/after) run symbolically; "
                 "range bounds a, b, c are solver variables, trip count forked up to K")
